@@ -96,6 +96,7 @@ fn quantifier_reduce__any_all_n1() {
     reduce::<1>()
 }
 
+// NOT REGISTERED: no result in 400 s (drop glue of the consumed elements / TypeMismatchError path of bool::try_from)
 #[kani::proof]
 #[kani::stub(std::mem::drop, crate::lhs_types::verif_kani::common::mem_drop__releases_nothing_observable)]
 #[kani::solver(minisat)]
@@ -105,6 +106,7 @@ fn quantifier_reduce__any_all_n2() {
 }
 
 /// The owned representation (the value a compiled index expression hands over).
+/// NOT REGISTERED: no result in 300 s.
 fn reduce_owned<const N: usize>() {
     let bs: [bool; N] = kani::any();
     let (some, every) = reference(&bs);
@@ -282,6 +284,7 @@ fn combining_vec<const N: usize, const L0: usize, const L1: usize, const L2: usi
     std::mem::forget(scheme);
 }
 
+// NOT REGISTERED (all combining_vec__*): no result in 400 s even for operand lengths (1,0), (0,1), (1,1).
 macro_rules! combining {
     ($name:ident, $unwind:literal, $n:literal, $l0:literal, $l1:literal, $l2:literal, $op:expr) => {
         #[kani::proof]
@@ -344,6 +347,7 @@ fn unary_not_vec__elementwise_n0() {
 }
 
 /// any(e) / all(e) where e compiles to a bool array of length L.
+/// NOT REGISTERED (quantifier_logical__*, quantifier_direct__*): CBMC out of memory (13.8 GB) at length 0.
 fn quantifier_logical<const L: usize>() {
     let scheme = scheme_of(&[(Type::Bool, false)], true);
     let a: [bool; L] = kani::any();
